@@ -21,6 +21,7 @@ type sessionEvents interface {
 	sessionOffline(string, sessionOfflineState)
 	connectionClosed(string, bool, mqttp.ReasonCode)
 	subscriberShutdown(string)
+	sessionPersistPublish(string, *mqttp.Publish)
 }
 
 type sessionPreConfig struct {
@@ -59,6 +60,8 @@ type session struct {
 	idLock  *sync.Mutex
 	lock    sync.Mutex // nolint:structcheck,unused
 	stopReq types.Once
+	// handedOver is closed once the queues of the connection that has ended are persisted, see SignalOffline
+	handedOver chan struct{}
 	sessionConfig
 }
 
@@ -304,7 +307,23 @@ func (s *session) SignalOffline() {
 		s.durable = false
 	}
 
-	s.subscriber.Offline(!s.durable)
+	if !s.durable {
+		s.subscriber.Offline(true)
+		return
+	}
+
+	// what the connection still holds in its queues reaches persistence only in SignalConnectionClose.
+	// A message routed to the session in between must be persisted BEHIND those, not ahead of them
+	// (the next connection loads in the order of persistence): it waits for the hand-over
+	s.handedOver = make(chan struct{})
+
+	handedOver := s.handedOver
+	persist := s.sessionPersistPublish
+
+	s.subscriber.Online(func(id string, p *mqttp.Publish) {
+		<-handedOver
+		persist(id, p)
+	})
 }
 
 // SignalConnectionClose net connection has been closed
@@ -318,6 +337,22 @@ func (s *session) SignalConnectionClose(params connection.DisconnectParams) {
 		qos0:    len(params.Packets.QoS0),
 		qos12:   len(params.Packets.QoS12),
 		unAck:   len(params.Packets.UnAck),
+	}
+
+	// first of all the queues of the connection: messages routed meanwhile are waiting for it and
+	// with them a routing worker (which the will below may need)
+	if s.durable {
+		if err := s.persistence.PacketsStore([]byte(s.id), params.Packets); err != nil {
+			s.log.Error("persisting packets", zap.String("clientId", s.id), zap.Error(err))
+		}
+	} else {
+		_ = s.persistence.PacketsDelete([]byte(s.id))
+	}
+
+	if s.handedOver != nil {
+		close(s.handedOver)
+		s.handedOver = nil
+		s.subscriber.Offline(false)
 	}
 
 	if s.will != nil {
@@ -346,14 +381,6 @@ func (s *session) SignalConnectionClose(params connection.DisconnectParams) {
 	if !state.keepContainer {
 		s.subscriberShutdown(s.id)
 		s.subscriber = nil
-	}
-
-	if s.durable {
-		if err := s.persistence.PacketsStore([]byte(s.id), params.Packets); err != nil {
-			s.log.Error("persisting packets", zap.String("clientId", s.id), zap.Error(err))
-		}
-	} else {
-		_ = s.persistence.PacketsDelete([]byte(s.id))
 	}
 
 	var exp *expiryConfig
